@@ -155,6 +155,10 @@ structure Access where
   critical : Bool
   /-- inside the worksharing loop (false: executed once by every thread of the team) -/
   inLoop : Bool
+  /-- the access belongs to ANOTHER worksharing loop of the same parallel region that may run concurrently with this
+      one (`nowait`); its location does not depend on this region's loop variable.  Pairs of foreign accesses are
+      checked in that loop's own region, pairs (own, foreign) here. -/
+  foreign : Bool := false
   vars : List String
   guard : (s v : Nat → Nat) → (i : Nat) → Bool
   row : (s v : Nat → Nat) → (i : Nat) → Option Nat
@@ -200,6 +204,7 @@ def dimOverlap : Option Nat → Option Nat → Prop
     location without both being inside a critical section, `a` being a write -/
 def Access.ConflictsWith (lo hi : (Nat → Nat) → Nat) (a b : Access) : Prop :=
   a.kind.isWrite = true ∧ a.arr = b.arr ∧ ¬ (a.critical = true ∧ b.critical = true) ∧
+  ¬ (a.foreign = true ∧ b.foreign = true) ∧
   ∃ (s : Nat → Nat) (i j : Nat) (va vb : Nat → Nat), i ≠ j ∧ lo s ≤ i ∧ i < hi s ∧ lo s ≤ j ∧ j < hi s ∧
     a.guard s va i = true ∧ b.guard s vb j = true ∧
     dimOverlap (a.row s va i) (b.row s vb j) ∧ dimOverlap (a.col s va i) (b.col s vb j)
@@ -208,6 +213,9 @@ def Access.ConflictsWith (lo hi : (Nat → Nat) → Nat) (a b : Access) : Prop :
     least one of them writes. -/
 def Region.RaceFree (r : Region) : Prop :=
   ∀ a ∈ r.accesses, ∀ b ∈ r.accesses, ¬ a.ConflictsWith r.lo r.hi b
+
+/-- the table lists at least one write (an empty table would make `RaceFree` vacuous) -/
+def Region.hasWrite (r : Region) : Bool := r.accesses.any fun a => a.kind.isWrite
 
 /-- everything done under `omp critical` is an append to a container -/
 def Region.criticalAppendOnly (r : Region) : Bool :=
@@ -224,9 +232,9 @@ def Access.covers (a : Access) (s : Nat → Nat) (i : Nat) (l : Loc) : Prop :=
 
 /-- uncritical write / read footprint of iteration `i` according to the table -/
 def Region.writeSet (r : Region) (s : Nat → Nat) (i : Nat) (l : Loc) : Prop :=
-  ∃ a ∈ r.accesses, a.kind.isWrite = true ∧ a.critical = false ∧ a.covers s i l
+  ∃ a ∈ r.accesses, a.kind.isWrite = true ∧ a.critical = false ∧ a.foreign = false ∧ a.covers s i l
 def Region.readSet (r : Region) (s : Nat → Nat) (i : Nat) (l : Loc) : Prop :=
-  ∃ a ∈ r.accesses, a.kind = .read ∧ a.critical = false ∧ a.covers s i l
+  ∃ a ∈ r.accesses, a.kind = .read ∧ a.critical = false ∧ a.foreign = false ∧ a.covers s i l
 
 /-- a concrete loop performs only the accesses listed in the region's table: iteration `k` of the
     loop is the value `lo + k` of the loop variable; writes stay inside the table's write set;
